@@ -176,6 +176,19 @@ pub fn c17() -> Outcome {
         let i = match r { Ok(i) => i, Err(e) => fail!(n, d, "well-formed MPS text was rejected ({e}):\n{text}") };
         if let Err(e) = check_mps(m, &i) { fail!(n, d, "MPS model {mi} layout {layout}: {e}\n--- text ---\n{text}"); }
     } }
+    // the path-based loader (mps::load_file reads a gzipped file) gives the same instance as the readers
+    {
+        let dir = std::env::var("RX_TMP").unwrap_or_else(|_| ".".to_string()); let _ = std::fs::create_dir_all(&dir);
+        for (mi, m) in models().iter().enumerate() { for (layout, name) in [(1u32, "model.mps.gz"), (6, "model.gz"), (10, "MODEL.MPS.GZ")] {
+            n += 1; d.insert((500 + mi, layout));
+            let text = render(m, layout);
+            let path = format!("{dir}/c17_{}_{name}", std::process::id());
+            if let Err(e) = std::fs::write(&path, flate2_encode(&text)) { fail!(n, d, "internal: cannot write {path}: {e}"); }
+            let r = ommx::mps::load_file(&path); let _ = std::fs::remove_file(&path);
+            let i = match r { Ok(i) => i, Err(e) => fail!(n, d, "mps::load_file rejected a gzipped well-formed MPS file named {name} ({e}):\n{text}") };
+            if let Err(e) = check_mps(m, &i) { fail!(n, d, "mps::load_file on a gzipped file named {name} (model {mi}, layout {layout}): {e}\n--- text ---\n{text}"); }
+        } }
+    }
     // malformed inputs are reported as errors
     let good = render(&models()[0], 0);
     let bad: Vec<(&str, String)> = vec![
